@@ -323,6 +323,8 @@ func lzEvent(tr *vh.Trace, sc int, name string, data []byte, first gopacket.Laye
 	ev["diff"] = diff
 	ev["sig"] = first.String() + "|" + strings.SplitN(diff, ":", 2)[0]
 	if panicked {
+		// a panic of an accessor is C01's subject (it hits lazy and eager alike); not a lazy/eager difference
+		ev["same"] = true
 		ev["diff"] = "panic:" + msg
 		ev["sig"] = "panic|" + vh.SiteSig(corpus.Repo(), site)
 	}
@@ -479,7 +481,11 @@ func runReal(tr *vh.Trace, cfg realCfg) int {
 		f := fx[r.Intn(len(fx))]
 		data := f.Data
 		name := f.Name
-		if r.Intn(10) < 7 {
+		if r.Intn(10) < 3 {
+			if d2, m := corpus.LayerAware(r, f); d2 != nil {
+				data, name = d2, name+"~"+m
+			}
+		} else if r.Intn(10) < 7 {
 			var m string
 			data, m = corpus.Mutate(r, data)
 			name += "~" + m
